@@ -410,6 +410,15 @@ def cancels (r : CancelRule) (g nonce : Nat) (b : Batch) : Bool :=
 
 def isBatch (g nonce : Nat) (b : Batch) : Bool := b.g == g && b.nonce == nonce
 
+/-- WHICH batch the cancel loop of `OutgoingTxBatchExecuted` hands to `CancelOutgoingTxBatch`: the iterated batch's nonce or
+the executed batch's (regenerated: `Gen.C04.executedCancelArg`) -/
+inductive CancelArg where
+  | iter | executed | unknown
+  deriving DecidableEq, Repr
+
+/-- the argument the model uses (obliged to equal `Gen.C04.executedCancelArg`) -/
+def cancelArg : CancelArg := .iter
+
 /-- `OutgoingTxBatchExecuted(token of g, nonce)` on the chain's records (the batch is known to exist): the cancelled
 batches' transfers go back to the pool, the executed batch is deleted; ghost: the contract's last nonce of that
 token -/
@@ -418,6 +427,23 @@ def executedWith (r : CancelRule) (cs : ChainSt) (g nonce : Nat) : ChainSt :=
     pool := (cs.batches.filter (cancels r g nonce)).flatMap (·.txs) ++ cs.pool,
     batches := cs.batches.filter (fun b => !cancels r g nonce b && !isBatch g nonce b),
     extLast := fun g' => if g' = g then nonce else cs.extLast g' }
+
+/-- `OutgoingTxBatchExecuted` with the cancel call of the loop made explicit: for every stored batch the guard selects,
+`CancelOutgoingTxBatch(token, <arg>)` runs.  With the ITERATED batch's nonce that is `executedWith`.  With the EXECUTED batch's
+nonce the first selected batch makes the executed batch's own transfers go back to the pool (the older batch stays stored), and
+a second selected batch finds the executed batch gone: `CancelOutgoingTxBatch` fails and the handler panics (`none`). -/
+def executedWithArg (r : CancelRule) (a : CancelArg) (cs : ChainSt) (g nonce : Nat) : Option ChainSt :=
+  match a with
+  | .iter => some (executedWith r cs g nonce)
+  | .unknown => none
+  | .executed =>
+    let ext := fun g' => if g' = g then nonce else cs.extLast g'
+    match cs.batches.filter (cancels r g nonce) with
+    | [] => some { cs with batches := cs.batches.filter (fun b => !isBatch g nonce b), extLast := ext }
+    | [_] => some { cs with
+        pool := (cs.batches.filter (isBatch g nonce)).flatMap (·.txs) ++ cs.pool,
+        batches := cs.batches.filter (fun b => !isBatch g nonce b), extLast := ext }
+    | _ => none
 
 /-- the bridge contract's `submitBatch` still accepts the batch: it was signed (built) on fxcore,
 `state_lastBatchNonces[token] <cmp> nonce` (`cmp` = `<`, regenerated from `FxBridgeLogic.sol`), and its timeout height has
